@@ -12,7 +12,8 @@
 From Coq Require Import ZArith QArith List Bool Reals.
 From Coquelicot Require Import Rbar.
 From PV Require Import Model.Val Model.Skeleton Model.SkeletonValid Model.SkeletonNoisy Model.Filter Model.SkeletonBox.
-From PV Require Import Proofs.FilterProofs Proofs.SkeletonBox Proofs.SkeletonBoxR Proofs.TransformProofs.
+From PV Require Import gen.Src_grid.
+From PV Require Import Proofs.FilterProofs Proofs.SkeletonBox Proofs.SkeletonBoxR Proofs.TransformProofs Proofs.GridProofs.
 Import ListNotations.
 Open Scope Z_scope.
 
@@ -35,13 +36,15 @@ Proof. exact filter_output_in_hard_box. Qed.
 Print Assumptions C01_filter_output_in_hard_box.
 
 (* (B2) the inward-rounded search box is inside the hard box, for every bound and every mesh size m > 0
-   (in particular every power of two) *)
+   (in particular every power of two).  The statement is about the code's OWN expressions: [src_usb_lb_search],
+   [src_usb_ub_search] are regenerated from BADS._update_search_bounds_ on every run (gen/Src_grid.v, translate/grid.py);
+   more about them, the copy in _init_optim_state_ and the nudged starting point in Props/C01grid.v. *)
 Theorem C01_search_box_inside :
   forall (lb ub m : Q), (0 < m)%Q ->
-    (lb <= lb_search1 lb m)%Q /\ (lb_search1 lb m <= lb + m)%Q /\
-    (ub_search1 ub m <= ub)%Q /\ (ub - m <= ub_search1 ub m)%Q /\
-    (lb + 2 * m <= ub -> lb_search1 lb m <= ub_search1 ub m)%Q.
-Proof. exact search_box_inside. Qed.
+    (lb <= src_usb_lb_search lb m)%Q /\ (src_usb_lb_search lb m < lb + m)%Q /\
+    (src_usb_ub_search ub m <= ub)%Q /\ (ub - m < src_usb_ub_search ub m)%Q /\
+    (lb + m <= ub -> src_usb_lb_search lb m <= src_usb_ub_search ub m)%Q.
+Proof. exact search_box_inside_wide. Qed.
 Print Assumptions C01_search_box_inside.
 
 (* (B3) the skeleton only ever calls the target at points supplied by the evaluation oracles, or — in the
